@@ -75,3 +75,15 @@ add("C10", R, EG, "randomized_pred = np.zeros(pred.shape[0])", "randomized_pred 
 add("C17", R, ADV, "                if self.callbacks_:\n                    stop = False", "                if self.callbacks_ is not None:\n                    stop = False", "explicit None test")
 add("C09", R, GG, "self.accumulator.append(self.entry.copy())", "self.accumulator.append(np.array(self.entry))", "copy via np.array")
 add("C06", R, UP, "            predictions = np.squeeze(predictions)", "            predictions = predictions.reshape(-1)", "reshape(-1) instead of squeeze")
+
+# fifth batch (evaluation-semantics seeds): element types, shared in-place updates, shallow copies, converted selection keys
+add("C05", M, TC, "    scores = list(data_sorted[SCORE_KEY])\n    labels = list(data_sorted[LABEL_KEY])",
+    "    scores = list(data_sorted[SCORE_KEY].values)\n    labels = list(data_sorted[LABEL_KEY].values)", "numpy-scalar sweep lists")
+add("C04", M, TC, "    return Bunch(\n        true_positives=true_positives,",
+    "    pos_ = true_positives + false_negatives\n    n_ = pos_\n    n_ += true_negatives + false_positives\n    if n_ is pos_:\n        pass\n    return Bunch(\n        true_positives=true_positives,",
+    "in-place update through a second name")
+add("C10", M, TO, "            self.estimator_ = clone(self.estimator)", "            from copy import copy as _shallow\n            self.estimator_ = _shallow(self.estimator)", "shallow copy fitted")
+add("C04", M, IT, "            positive_probs[sensitive_feature_vector == a] = interpolated_predictions[\n                sensitive_feature_vector == a\n            ]",
+    "            positive_probs[sensitive_feature_vector.astype(str) == str(a)] = interpolated_predictions[\n                sensitive_feature_vector.astype(str) == str(a)\n            ]", "selection through str()")
+add("C07", M, UP, "            predictions = np.squeeze(predictions)", "            predictions = np.require(np.squeeze(predictions), requirements='W')\n            predictions *= 1.0", "in-place on np.require view")
+add("C05", R, TC, "    scores = list(data_sorted[SCORE_KEY])", "    scores = data_sorted[SCORE_KEY].tolist()", "tolist gives Python numbers")
